@@ -102,4 +102,19 @@ TEXT = {
         design_ref="DESIGN.md sections 3 (C03) and 4",
         level_note=NOTE_COMMON,
         technique="runtime oracle (extended-precision pencil residual / M-orthonormality monitor at the public accessors) over seeded histories + fixed regression corpus, ASan+UBSan build"),
+    "C04": dict(
+        level_text="Exploration with two runtime oracles over ~15000 (quick) runs of 17 solver configurations on spectra prescribed by construction: (1) on every run and outcome, the returned values "
+                   "(mapped to the iterated spectrum) must be the rule's top choice among the Ritz values of the final factorization (read through the guarded friend) - deterministic, catches any "
+                   "selection-logic slip; (2) when Successful, the returned set must equal the rule's top-k of the true spectrum - judged strictly for ncv = n, where it is exact for every rule, and on a "
+                   "fixed corpus elsewhere (implicit restart with early stopping misses sporadically; observed misses are counted in the evidence and the failing corpus members are listed).",
+        design_ref="DESIGN.md sections 3 (C04) and 4",
+        level_note=NOTE_COMMON + " Davidson, PartialSVD and LOBPCG selection is judged in C15, C16, C17.",
+        technique="runtime reference-model comparison (prescribed spectra) + Ritz-relative selection oracle through guarded friend access; plain build"),
+    "C11": dict(
+        level_text="Exploration over the enumerated configuration space of the 16 wrapper classes (~150 instantiations incl. all 64 SymShiftInvert combinations, both storage-index types, three scalar "
+                   "types) at sizes 1, 2 and random n: extended-precision reference comparison of every documented operation, byte-identical outputs under NaN / junk poisoning of the triangle the "
+                   "wrapper must not read, Map / strided-block / expression inputs under ASan.",
+        design_ref="DESIGN.md section 3, C11",
+        level_note=NOTE_COMMON,
+        technique="runtime oracle (extended-precision reference + metamorphic triangle poisoning) over enumerated template configurations, ASan+UBSan build"),
 }
